@@ -147,6 +147,11 @@ func (c *Ctx) secretSource(o Origin, forLog bool) string {
 			return "remember cookie value"
 		}
 	}
+	// the submitted values as a whole (what BodyReader.Read hands back, or its
+	// typed view): printed with %v it shows every field, password included
+	if forLog && o.Idx == 0 && (name == fnBodyRead || (strings.Contains(name, ".MustHave") && strings.HasSuffix(name, "Values"))) {
+		return "the submitted values object (" + name + "), whose printed form includes the password/code/token"
+	}
 	if forLog && name == fnGetSession && o.Idx == 0 {
 		k, _ := constArgStr(call, 1)
 		switch k {
